@@ -1,5 +1,5 @@
-(* C13/LemEx.v -- the assembled life-cycle theorem, the refutation witness and
-   the non-vacuity witness *)
+(* C13/LemEx.v -- the assembled life-cycle theorem, the former refutation witness
+   (now a positive example) and the non-vacuity witness *)
 From Coq Require Import ZArith List Bool Lia.
 From AK Require Import Common.Sx Common.Err C13.Model C13.LemStr C13.LemFmt C13.LemState C13.LemView C13.LemReach.
 Import ListNotations.
@@ -35,16 +35,25 @@ Definition st_rows : list row :=
 Definition st_fmt : str :=
   [103;33;58;50;44;107;58;49;44;110;97;109;101;58;49;45;49;48;59;50;58;50].
 
-Lemma stale_after_remove : exists fs rows s names t0 t1,
-  fields_okb fs = true /\ ctor fs (Some s) None None = Ok t0 /\
-  t1 = remove_columns (fst (print rows t0)) names /\ wf t1 = true /\
-  set_fmt t1 (fmt_to_str t1) = Ok (reformatted t1) /\
-  snd (print rows (reformatted t1)) <> snd (print rows t1).
+(* the former refutation witness (remove_break_column_refuted before the repair
+   38581d5 of ak/ppobj.py): the views now agree, and likewise after set_limits *)
+Lemma repaired_after_remove : exists t0 t1 t2,
+  fields_okb st_fields = true /\ ctor st_fields (Some st_fmt) None None = Ok t0 /\
+  t1 = remove_columns (fst (print st_rows t0)) [[103]] /\ t_cols t1 <> t_cols (fst (print st_rows t0)) /\
+  snd (print st_rows (reformatted t1)) = snd (print st_rows t1) /\
+  snd (print st_rows (rebuilt t1)) = snd (print st_rows t1) /\
+  t2 = set_limits (fst (print st_rows t0)) (Some (Some 1, Some 1)) /\
+  snd (print st_rows (reformatted t2)) = snd (print st_rows t2) /\
+  snd (print st_rows (rebuilt t2)) = snd (print st_rows t2) /\
+  snd (print st_rows t2) <> snd (print st_rows (fst (print st_rows t0))).
 Proof.
   destruct (ctor st_fields (Some st_fmt) None None) as [t0|] eqn:E; [|vm_compute in E; discriminate].
-  exists st_fields, st_rows, st_fmt, [[103]], t0, (remove_columns (fst (print st_rows t0)) [[103]]).
+  exists t0, (remove_columns (fst (print st_rows t0)) [[103]]),
+         (set_limits (fst (print st_rows t0)) (Some (Some 1, Some 1))).
   vm_compute in E. injection E as <-.
   split; [vm_compute; reflexivity|]. split; [reflexivity|]. split; [reflexivity|].
+  split; [vm_compute; discriminate|].
+  split; [vm_compute; reflexivity|]. split; [vm_compute; reflexivity|]. split; [reflexivity|].
   split; [vm_compute; reflexivity|]. split; [vm_compute; reflexivity|].
   vm_compute. discriminate.
 Qed.
